@@ -213,13 +213,38 @@ def inval_during_bg(tier):
     return out
 
 
+def inval_dangling(tier):
+    """an index that lists an entry which is not there (its body could not be read completely) before other variants,
+    then an unsafe request: every entry the index made reachable has to go"""
+    out = []
+    i = 0
+    for m in ("POST", "DELETE", "X-UNKNOWN"):
+        for first in (1, 2, 3):
+            gets = []
+            for a_ in (1, 2, 3):
+                a = ans(ccp=1, ma=100, etag=1, vary=[2])
+                if a_ == first:
+                    a = ans(k="bodyerr", ccp=1, ma=100, etag=1, vary=[2], bodycut=4)
+                gets.append({"op": "req", "rq": rq(u=0, sel=[0, 0, a_, 0]), "ans": [a]})
+                gets.append({"op": "tick", "d": 1})
+            steps = gets + [{"op": "req", "rq": rq(u=0, m=m), "ans": [ans(st=200, ccp=0, etag=0)]}, {"op": "tick", "d": 1},
+                            {"op": "req", "rq": rq(u=0, sel=[0, 0, 2, 0]), "ans": [ans(ccp=1, ma=100, etag=2, vary=[2])]},
+                            {"op": "req", "rq": rq(u=0, sel=[0, 0, 3, 0]), "ans": [ans(ccp=1, ma=100, etag=2, vary=[2])]}]
+            out.append({"id": "invdangling/%02d" % i, "backend": "fs" if i % 2 else "mem", "opt": {}, "steps": steps, "grp": "", "spv": 0})
+            i += 1
+    return out
+
+
 def periodic(tier, seed, n=None):
-    """a finite request alphabet repeated far beyond the footprint bound (C19)"""
+    """a finite request alphabet repeated far beyond the footprint bound (C19); in a third of the histories no time
+    passes at all, in another third the origin's Date stands still"""
     r = random.Random(seed * 32452843 + 7)
     n = n or (6 if tier == "quick" else 60)
     rounds = 140 if tier == "quick" else 400
-    out = []
+    out = inval_dangling(tier)
     for i in range(n):
+        mode = i % 3
+        elapsed = 0
         sels = [list(s) for s in r.sample(SELS, 3)]
         varys = r.sample(VARYS, 3)
         if i % 2 == 0 and ([], 1) not in varys:
@@ -238,10 +263,13 @@ def periodic(tier, seed, n=None):
                     steps.append({"op": "req", "rq": rq(u=u, m="POST"), "ans": [ans(st=200, ccp=0, etag=0)]})
                 else:
                     v, vs = r.choice(varys)
-                    a = ans(ccp=1, ma=r.choice([0, 2, 50]), vary=v, vs=vs, etag=1, swr=r.choice([NONE, 5]))
-                    b = ans(k="304", st=304, ccp=1, ma=r.choice([2, 50]), etag=1) if r.random() < 0.5 else a
+                    dsk = elapsed if mode == 2 else 0  # mode 2: the Date of every answer is the same instant
+                    a = ans(ccp=1, ma=r.choice([0, 2, 50]), vary=v, vs=vs, etag=1, swr=r.choice([NONE, 5]), dsk=dsk)
+                    b = ans(k="304", st=304, ccp=1, ma=r.choice([2, 50]), etag=1, dsk=dsk) if r.random() < 0.5 else a
                     steps.append({"op": "req", "rq": rq(u=u, sel=sel), "ans": [b, a]})
-                steps.append({"op": "tick", "d": r.choice([0, 1, 3])})
+                d = 0 if mode == 1 else r.choice([0, 1, 3])
+                elapsed += d
+                steps.append({"op": "tick", "d": d})
         out.append({"id": "periodic/%04d" % i, "backend": "fs" if i % 3 == 2 else "mem", "opt": {}, "steps": steps, "grp": "", "spv": 0})
     return out
 
